@@ -3,7 +3,7 @@
     about a model of that site.  A new site, an iterable the scanner cannot type, or a call to a source
     of process-level nondeterminism makes this file fail to compile: the check fails closed. *)
 From Coq Require Import List String Bool Permutation NArith.
-From Pi2 Require Import Gen.SetSites Det.Finalize Det.FinalizeProofs Det.Converter MM15.Codec MM15.CodecProofs.
+From Pi2 Require Import Gen.SetSites Det.Finalize Det.FinalizeProofs Det.ConverterModel Det.Converter MM15.Codec MM15.CodecProofs.
 Import ListNotations.
 Open Scope string_scope.
 
